@@ -78,6 +78,7 @@ func expectedOf(p *spec.Packet) *spec.Packet {
 
 func c03Exec(c *fcase) (*core.Finding, []byte) {
 	p := c.P
+	resetGlobals()
 	tname := bind.TypeNames[p.Type]
 	frame, _, err := spec.Encode(p, c.Form)
 	if err != nil {
